@@ -452,3 +452,236 @@ Proof.
 Qed.
 
 End NumberTotal.
+
+(* ====================================================================== C *)
+(* string literals: fuel = length is enough; character literals: no panic on a
+   text of at least two characters *)
+Lemma parse_string_hex_cases l : forall acc,
+  (exists v r3, parse_string_hex l acc = Ok (v, r3) /\ (length r3 <= length l)%nat /\ r3 <> [])
+  \/ (exists e, parse_string_hex l acc = Err e).
+Proof.
+  induction l as [|c r IH]; intros acc; cbn [parse_string_hex]; [right; eauto|].
+  destruct (c =? 59).
+  { left. exists acc, (c :: r). split; [reflexivity|]. split; [lia|discriminate]. }
+  destruct (is_hex c); [|right; eauto].
+  destruct (4294967295 <? acc * 16); [right; eauto|].
+  destruct (4294967295 <? acc * 16 + hex_val c); [right; eauto|].
+  destruct (IH (acc * 16 + hex_val c)) as [(v & r3 & H & Hl & Hne)|(e & H)].
+  - left. exists v, r3. split; [assumption|]. split; [cbn [length]; lia|assumption].
+  - right. eauto.
+Qed.
+
+Lemma parse_string_fuel_safe fuel : forall l acc, (length l <= fuel)%nat ->
+  safe (parse_string_fuel fuel l acc).
+Proof.
+  induction fuel as [|f IH]; intros l acc Hl; cbn [parse_string_fuel].
+  { destruct l; [exact I|cbn [length] in Hl; lia]. }
+  destruct l as [|c r]; [exact I|]. cbn [length] in Hl.
+  destruct (c =? 92); [|apply IH; lia].
+  destruct r as [|e r2]; [exact I|]. cbn [length] in Hl.
+  destruct (e =? 120); [|apply IH; lia].
+  destruct (parse_string_hex_cases r2 0) as [(v & r3 & H & Hl3 & Hne)|(e' & H)]; rewrite H; cbn [bind]; [|exact I].
+  destruct (is_scalar v); [|exact I]. apply IH.
+  destruct r3 as [|x r3']; [congruence|]. cbn [tl length] in *. lia.
+Qed.
+
+Lemma parse_string_safe inner : safe (parse_string inner).
+Proof.
+  unfold parse_string. apply safe_bind; [apply parse_string_fuel_safe; lia|]. intros; exact I.
+Qed.
+
+Lemma parse_char_safe a : (exists x y body, a = x :: y :: body) -> safe (parse_char a).
+Proof.
+  intros (x & y & body & ->). unfold parse_char.
+  repeat match goal with
+  | |- safe (match ?x with _ => _ end) => destruct x
+  end; exact I.
+Qed.
+
+(* ====================================================================== D *)
+(* the known class (decidable): a token directly after a number-prefix token whose
+   text makes Ratio<i32>::from_str_radix + reduce panic in one of the radices a
+   prefix can select *)
+Definition rational_panics (sp : text) : bool :=
+  existsb (fun r => match parse_rational Debug sp r with Panic _ => true | _ => false end)
+          [2; 8; 10; 16]%Z.
+
+Fixpoint prefixed_panics (t : text) (ts : list token) : bool :=
+  match ts with
+  | [] => false
+  | k :: r =>
+      (ttype_eqb (t_ty k) TNumPrefix &&
+       match r with
+       | k' :: _ => match tok_span t k' with Ok sp => rational_panics sp | _ => false end
+       | [] => false
+       end) || prefixed_panics t r
+  end.
+
+Definition known_C06 (t : text) : bool :=
+  match scan t with Ok ts => prefixed_panics t ts | _ => false end.
+
+Lemma rational_panics_ok sp r : rational_panics sp = false -> In r [2; 8; 10; 16]%Z -> rational_ok sp r.
+Proof.
+  unfold rational_panics. intros H Hin s Hs.
+  assert (Hex : existsb (fun r => match parse_rational Debug sp r with Panic _ => true | _ => false end)
+                  [2; 8; 10; 16]%Z = true).
+  { apply existsb_exists. exists r. split; [assumption|]. rewrite Hs. reflexivity. }
+  congruence.
+Qed.
+
+Lemma prefixed_panics_tail t k r : prefixed_panics t (k :: r) = false -> prefixed_panics t r = false.
+Proof. cbn [prefixed_panics]. intros H. apply Bool.orb_false_iff in H as [_ H]. exact H. Qed.
+
+Lemma prefixed_panics_app t u r : prefixed_panics t (u ++ r) = false -> prefixed_panics t r = false.
+Proof.
+  induction u as [|k u IH]; cbn [app]; intros H; [assumption|].
+  apply IH. eapply prefixed_panics_tail; eassumption.
+Qed.
+
+(* a Number token has no sign after its first character: its denominator is unsigned *)
+Lemma number_shape_rational_ok a r : tok_shape TNumber a -> (0 <= r)%Z -> rational_ok a r.
+Proof.
+  intros (c0 & a1 & -> & Hall) Hr s Hs.
+  destruct (parse_rational_unsigned_den Debug (c0 :: a1) r Hr) as (o & Ho); [|congruence].
+  intros x y Hsp. apply split_slash_sound in Hsp.
+  destruct y as [|c y']; [exact I|]. cbn [unsigned_head].
+  assert (Hin : In c a1).
+  { destruct x as [|x0 x']; cbn [app] in Hsp; injection Hsp as _ Hsp; subst a1.
+    - left; reflexivity.
+    - apply in_or_app. right. right. left. reflexivity. }
+  rewrite forallb_forall in Hall. specialize (Hall c Hin).
+  split; intros ->; vm_compute in Hall; discriminate.
+Qed.
+
+Lemma first_char_safe t k : tok_at t k -> exists c, first_char t k = Ok c.
+Proof.
+  intros Hk. destruct (tok_at_span t k Hk) as (c & r & a & b & E & Ha & Hs & _).
+  unfold first_char. rewrite Hs. cbn [bind]. destruct a as [|x a']; [congruence|]. eauto.
+Qed.
+
+Lemma parse_number_safe t : forall ts k ex r,
+  In r [2; 8; 10; 16]%Z -> tok_at t k -> Forall (tok_at t) ts ->
+  prefixed_panics t (k :: ts) = false ->
+  (t_ty k <> TNumPrefix -> forall sp, tok_span t k = Ok sp -> rational_ok sp r) ->
+  safe (parse_number t k ts ex r).
+Proof.
+  assert (Hradix : forall r, In r [2; 8; 10; 16]%Z -> (2 <= r <= 36)%Z).
+  { intros r Hin. cbn [In] in Hin. lia. }
+  assert (Hleaf : forall ts k ex r, In r [2; 8; 10; 16]%Z -> tok_at t k -> t_ty k <> TNumPrefix ->
+            (forall sp, tok_span t k = Ok sp -> rational_ok sp r) -> safe (parse_number t k ts ex r)).
+  { intros ts k ex r Hr Hk Hty Hok. rewrite parse_number_leaf by assumption.
+    destruct (tok_at_span t k Hk) as (c & r0 & a & b & E & Ha & Hs & _). rewrite Hs. cbn [bind].
+    destruct (parse_with_exactness_safe a ex r (Hradix r Hr) (Hok a Hs)) as (o & ->). cbn [bind].
+    destruct o; exact I. }
+  induction ts as [|k' ts IH]; intros k ex r Hr Hk Hts Hpp Hok;
+    (destruct (ttype_dec (t_ty k) TNumPrefix) as [Ek|Ek]; [|apply Hleaf; auto]).
+  - cbn [parse_number]. rewrite Ek.
+    destruct (tok_at_span t k Hk) as (c & r0 & a & b & E & Ha & Hs & _). rewrite Hs. cbn [bind].
+    apply lex1_shape in E. rewrite Ek in E. destruct E as (e & rd & -> & _). exact I.
+  - cbn [parse_number]. rewrite Ek.
+    destruct (tok_at_span t k Hk) as (c & r0 & a & b & E & Ha & Hs & _). rewrite Hs. cbn [bind].
+    apply lex1_shape in E. rewrite Ek in E. destruct E as (e & rd & -> & Hrd).
+    inversion Hts as [|? ? Hk' Hts']; subst.
+    cbn [prefixed_panics] in Hpp. apply Bool.orb_false_iff in Hpp as [Hp1 Hp2].
+    rewrite Ek in Hp1. cbn [ttype_eqb andb] in Hp1.
+    apply IH; try assumption.
+    + destruct rd; assumption.
+    + intros _ sp Hsp. rewrite Hsp in Hp1. apply rational_panics_ok; [assumption|]. destruct rd; assumption.
+Qed.
+
+(* fuel: parse needs 2n+1 units on n tokens, the list parsers 2n+2 *)
+Theorem parse_safe : forall fuel t,
+  (forall ts, Forall (tok_at t) ts -> prefixed_panics t ts = false ->
+     (2 * length ts + 1 <= fuel)%nat -> safe (parse fuel t ts)) /\
+  (forall ts start acc, Forall (tok_at t) ts -> prefixed_panics t ts = false -> tok_at t start ->
+     (2 * length ts + 2 <= fuel)%nat -> safe (parse_list fuel t ts start acc)) /\
+  (forall ts acc, Forall (tok_at t) ts -> prefixed_panics t ts = false ->
+     (2 * length ts + 2 <= fuel)%nat -> safe (parse_vector fuel t ts acc)).
+Proof.
+  induction fuel as [|f IH]; intros t.
+  { split; [|split]; intros; lia. }
+  destruct (IH t) as (IHp & IHl & IHv). clear IH.
+  (* what is left after a successful parse *)
+  assert (Hrest : forall ts d r', Forall (tok_at t) ts -> prefixed_panics t ts = false ->
+            parse f t ts = Ok (d, r') ->
+            Forall (tok_at t) r' /\ prefixed_panics t r' = false /\ (length r' < length ts)%nat).
+  { intros ts d r' Hts Hpp Hp.
+    pose proof (proj1 (parse_rest_shorter f t) _ _ _ Hp) as Hlen.
+    apply (proj1 (parse_good f t)) in Hp as (used & -> & _).
+    split; [eapply Forall_app; eassumption|]. split; [eapply prefixed_panics_app; eassumption|assumption]. }
+  split; [|split].
+  - (* ------------------------------------------------------------ parse *)
+    intros ts Hts Hpp Hf. cbn [parse]. destruct ts as [|k r]; [exact I|].
+    inversion Hts as [|? ? Hk Hr]; subst. pose proof (prefixed_panics_tail _ _ _ Hpp) as Hppr.
+    cbn [length] in Hf.
+    destruct (tok_at_span t k Hk) as (c0 & r0 & a & b & E & Ha & Hs & _).
+    pose proof (lex1_shape _ _ _ _ _ E) as Hshape.
+    destruct (t_ty k) eqn:Ek; cbv beta iota; try exact I;
+      try (apply safe_bind; [apply IHp; [assumption|assumption|lia]|intros [d r'] _; exact I]).
+    + (* TChar *)
+      rewrite Hs. cbn [bind]. apply safe_bind; [apply parse_char_safe; exact Hshape|intros; exact I].
+    + (* TLeft *) apply IHl; try assumption. lia.
+    + (* TNumber *)
+      apply parse_number_safe; try assumption; [cbn; auto|].
+      intros _ sp Hsp. rewrite Hs in Hsp. injection Hsp as <-.
+      apply number_shape_rational_ok; [exact Hshape|lia].
+    + (* TNumPrefix *)
+      apply parse_number_safe; try assumption; [cbn; auto|]. intros Hne; congruence.
+    + (* TString *)
+      rewrite Hs. cbn [bind]. destruct Hshape as (x & y & body & ->).
+      apply safe_bind; [apply parse_string_safe|intros; exact I].
+    + (* TSymbol *) rewrite Hs. exact I.
+    + (* THashParen *) apply IHv; try assumption. lia.
+  - (* ------------------------------------------------------- parse_list *)
+    intros ts start acc Hts Hpp Hstart Hf. cbn [parse_list]. destruct ts as [|k r]; [exact I|].
+    inversion Hts as [|? ? Hk Hr]; subst. pose proof (prefixed_panics_tail _ _ _ Hpp) as Hppr.
+    cbn [length] in Hf.
+    assert (Hdefault : safe (do (d, r') <- parse f t (k :: r); parse_list f t r' start (d :: acc))).
+    { apply safe_bind; [apply IHp; [assumption|assumption|cbn [length]; lia]|].
+      intros [d r'] Hp. destruct (Hrest _ _ _ Hts Hpp Hp) as (H1 & H2 & H3). cbn [length] in H3.
+      apply IHl; try assumption. lia. }
+    destruct (t_ty k) eqn:Ek; cbv beta iota; try exact Hdefault.
+    + (* TDot *)
+      destruct acc as [|a0 acc']; [exact I|]. destruct r as [|k2 r2]; [exact I|].
+      cbn [length] in Hf.
+      destruct (t_ty k2); try exact I;
+        (apply safe_bind; [apply IHp; [assumption|assumption|cbn [length]; lia]|];
+         intros [d r2'] _; destruct r2' as [|k3 r3]; [exact I|]; destruct (t_ty k3); exact I).
+    + (* TRight *)
+      destruct (first_char_safe t start Hstart) as (sc & ->).
+      destruct (first_char_safe t k Hk) as (ec & ->). cbn [bind].
+      match goal with |- safe (if ?c then _ else _) => destruct c end; exact I.
+  - (* ----------------------------------------------------- parse_vector *)
+    intros ts acc Hts Hpp Hf. cbn [parse_vector]. destruct ts as [|k r]; [exact I|].
+    inversion Hts as [|? ? Hk Hr]; subst.
+    cbn [length] in Hf.
+    assert (Hdefault : safe (do (d, r') <- parse f t (k :: r); parse_vector f t r' (d :: acc))).
+    { apply safe_bind; [apply IHp; [assumption|assumption|cbn [length]; lia]|].
+      intros [d r'] Hp. destruct (Hrest _ _ _ Hts Hpp Hp) as (H1 & H2 & H3). cbn [length] in H3.
+      apply IHv; try assumption. lia. }
+    destruct (t_ty k) eqn:Ek; cbv beta iota; try exact Hdefault; try exact I.
+    destruct (first_char_safe t k Hk) as (ec & ->). cbn [bind].
+    destruct (ec =? 41); exact I.
+Qed.
+
+(* ====================================================================== E *)
+Definition parse_text_total_stmt : Prop :=
+  forall t, (exists d r, parse_text t = Ok (d, r)) \/ (exists e, parse_text t = Err e).
+
+Theorem parse_text_total t : known_C06 t = false ->
+  (exists d r, parse_text t = Ok (d, r)) \/ (exists e, parse_text t = Err e).
+Proof.
+  intros Hk. unfold parse_text, known_C06 in *.
+  destruct (scan_total t) as [(ts & Hs)|(e & He)]; [|rewrite He; right; exists e; reflexivity].
+  rewrite Hs in *. cbn [bind].
+  pose proof (scan_tok_at _ _ Hs) as Hts.
+  pose proof (proj1 (parse_safe (parse_fuel ts) t) ts Hts Hk) as Hsafe.
+  unfold parse_fuel in *. specialize (Hsafe ltac:(lia)).
+  destruct (parse (S (2 * length ts)) t ts) as [[d rest]|e| |] eqn:Ep; try contradiction; cbn [bind];
+    [|right; eauto].
+  left. destruct rest as [|k rest']; [eauto|].
+  apply (proj1 (parse_good _ t)) in Ep as (used & Hu & _).
+  assert (Hin : tok_at t k).
+  { rewrite Forall_forall in Hts. apply Hts. rewrite Hu. apply in_or_app. right. left. reflexivity. }
+  destruct (tok_at_span t k Hin) as (c0 & r0 & a & b & _ & _ & _ & ->). cbn [bind]. eauto.
+Qed.
